@@ -61,5 +61,5 @@ def temporal_pipelines(v, findings):
 
 
 def run(tier, seed):
-    return speccheck.run(PROP, tier, seed, ["general", "rowlevel", "agg", "window", "join", "subquery", "union", "slices", "tall", "scen_window_nulls", "scen_join_hidden", "scen_selfjoin_agg", "scen_join_suffix", "scen_rename_hidden", "scen_union_const", "scen_union_distinct", "scen_const_key", "scen_join_all", "scen_subq_group", "scen_union_agg_right", "scen_subq_hidden", "scen_summarize_key"], 400, 20000, also=("C08",), extra_stream=temporal_pipelines,
+    return speccheck.run(PROP, tier, seed, ["general", "rowlevel", "agg", "window", "join", "subquery", "union", "slices", "tall", "scen_window_nulls", "scen_join_hidden", "scen_selfjoin_agg", "scen_join_suffix", "scen_rename_hidden", "scen_union_const", "scen_union_distinct", "scen_const_key", "scen_join_all", "scen_subq_group", "scen_union_agg_right", "scen_subq_hidden", "scen_summarize_key", "scen_window_cast_join"], 400, 20000, also=("C08",), extra_stream=temporal_pipelines,
                          assumptions=["values restricted to the domain of DESIGN.md section 4"])
